@@ -135,6 +135,36 @@ CHECKS = {
             'thorough, every prefix checked), random beyond with pre-existing files, gaps, time_format, multi-line '
             'and non-ASCII payloads, close/reopen and no-rotation streams.',
             'Size bound judged on ASCII payloads without time_format.'),
+    'C06': ('SIM+REF', 'exploration',
+            'runtime monitoring: reply ledger per frame handed to the real Controller.handle_message (count, envelope, '
+            'JSON shape, status, id) with a follow-up probe; real CircusClient/AsyncCircusClient against a scripted '
+            'ROUTER peer over real ZeroMQ',
+            'Arbitrary bytes, every JSON shape, field-by-field corruption, every registered command with valid and '
+            'type-confused properties and operations that fail after the immediate-reply path; client calls against '
+            'permutations of stale/foreign/id-less/duplicate/right replies and silence.',
+            'Multi-frame envelopes are not judged; AsyncCircusClient has no timeout of its own.'),
+    'C07': ('LIVE', 'exploration',
+            'runtime monitoring of a real circusd under strace: socket inodes from /proc/<pid>/fd of daemon and '
+            'workers, bind() calls from the strace record, connect() probes',
+            'Real daemon with managed inet/unix/so_reuseport sockets and probe workers that dump argv and '
+            'descriptors, over 6-10 worker generations driven by SIGKILL, restart, reload, incr, decr, reloadconfig.',
+            'so_reuseport sockets are per-worker by design; wall clock only ever makes a case inconclusive.'),
+    'C08': ('LIVE', 'exploration',
+            'runtime monitoring of a real circusd under strace: exit status, /proc children (pid,starttime), '
+            'filesystem and connect() after quit / SIGTERM / SIGINT / SIGQUIT at chosen points of its life',
+            'Quit request or termination signal when idle, during the paced start-up, during stop/restart with '
+            'stubborn workers, during a respawning periodic check; pid-file start-up cases (live other pid, dead, '
+            'empty, garbage, negative, zero).',
+            'A verdict of "never exits" needs corroboration (process still there, signal seen by strace) after a wait '
+            '>= 10x the configured timeouts; libzmq ipc files are not demanded.'),
+    'C17': ('LIVE', 'exploration',
+            'runtime monitoring in process: real Arbiter on a real loop, real pipes, collecting stream objects; byte '
+            'for byte comparison with what the self-describing probe workers wrote; handler invocation counter; '
+            '/proc/self/fd growth',
+            '1-6 concurrent writers with scripted chunk sizes (1 byte .. 70 000 bytes, around the 1024-byte read '
+            'buffer) on both channels while a sibling watcher is restarted/reloaded/SIGKILLed for 25-120 generations; '
+            'one writer closes a pipe early.',
+            'Only workers that keep running are judged; the leak measure is the fd-count growth after generation 10.'),
 }
 
 NOT_YET = {
